@@ -76,7 +76,7 @@ impl Op {
     }
 }
 
-#[derive(Clone, Copy, Debug)]
+#[derive(Clone, Copy, Debug, PartialEq)]
 pub enum Dec { Keep, Set(V), Remove, SetRemove(V), Stop }
 fn decs_text(d: &[Dec]) -> String {
     if d.is_empty() { return "-".into(); }
@@ -89,6 +89,9 @@ fn decs_text(d: &[Dec]) -> String {
 enum St {
     Plain(Pin<Box<VectorSubscriberStream<V>>>),
     Batched(Pin<Box<VectorSubscriberBatchedStream<V>>>),
+    /// the `VectorSubscriber` is kept as it is and only turned into a stream at its first poll
+    /// (`mode`: 0 `into_stream` / `into_batched_stream`, 1 `into_values_and_stream` / `into_values_and_batched_stream`)
+    Lazy(Option<eyeball_im::VectorSubscriber<V>>, u8),
 }
 
 /// a message the harness knows was published while this subscriber existed
@@ -128,10 +131,25 @@ pub struct World {
 impl World {
     pub fn new(sink: &mut Sink, capacity: usize) -> World {
         sink.line(&format!("newvec {capacity}"), "ok");
+        // capacity 16 is what `new()` / `default()` / `From<Vector<T>>` use: go through them, in turn
+        static TURN: std::sync::atomic::AtomicUsize = std::sync::atomic::AtomicUsize::new(0);
+        let ov: ObservableVector<V> = if capacity == 16 {
+            match TURN.fetch_add(1, std::sync::atomic::Ordering::Relaxed) % 3 { 0 => ObservableVector::new(), 1 => ObservableVector::default(), _ => ObservableVector::from(Vector::new()) }
+        } else { ObservableVector::with_capacity(capacity) };
         World {
-            ov: Some(Box::new(ObservableVector::with_capacity(capacity))), txn: None, subs: vec![], capacity,
+            ov: Some(Box::new(ov)), txn: None, subs: vec![], capacity,
             reference: vec![], tref: vec![], tsize: 0, final_state: None, panic_seen: false,
         }
+    }
+    /// `ObservableVector::from(values)`: documented as `new()` followed by `append(values)`, and reported as that
+    pub fn new_from(sink: &mut Sink, vals: Vec<V>) -> World {
+        sink.line("newvec 16", "ok");
+        let ov: ObservableVector<V> = ObservableVector::from(vals.iter().copied().collect::<Vector<V>>());
+        let mut w = World { ov: Some(Box::new(ov)), txn: None, subs: vec![], capacity: 16,
+            reference: vec![], tref: vec![], tsize: 0, final_state: None, panic_seen: false };
+        let op = Op::Append(vals);
+        w.after_direct(sink, &op.text(), &op, Ok("-".to_string()), vec![]);
+        w
     }
     fn rx_count(&self) -> usize { self.subs.iter().filter(|s| s.is_some()).count() }
     fn contents(&self) -> Vec<V> { self.ov.as_ref().unwrap().iter().copied().collect() }
@@ -304,6 +322,19 @@ impl World {
         {
             let ov = self.ov.as_mut().unwrap();
             let mut k = 0;
+            if !decs.contains(&Dec::Stop) && decs.len() % 2 == 0 {
+                ov.for_each(|mut e| {
+                    let d = decs.get(k).copied().unwrap_or(Dec::Keep);
+                    k += 1;
+                    seen.push((ObservableVectorEntry::index(&e), *e));
+                    match d {
+                        Dec::Keep | Dec::Stop => {}
+                        Dec::Set(v) => { ObservableVectorEntry::set(&mut e, v); msgs.push(vec![]); }
+                        Dec::Remove => { ObservableVectorEntry::remove(e); msgs.push(vec![]); }
+                        Dec::SetRemove(v) => { ObservableVectorEntry::set(&mut e, v); ObservableVectorEntry::remove(e); msgs.push(vec![]); msgs.push(vec![]); }
+                    }
+                });
+            } else {
             let mut entries = ov.entries();
             while let Some(mut e) = entries.next() {
                 let d = decs.get(k).copied().unwrap_or(Dec::Keep);
@@ -316,6 +347,7 @@ impl World {
                     Dec::SetRemove(v) => { ObservableVectorEntry::set(&mut e, v); ObservableVectorEntry::remove(e); msgs.push(vec![]); msgs.push(vec![]); }
                     Dec::Stop => break,
                 }
+            }
             }
         }
         let after = self.contents();
@@ -352,9 +384,9 @@ impl World {
     pub fn subscribe(&mut self, sink: &mut Sink, batched: bool) -> usize {
         let sub = self.ov.as_ref().unwrap().subscribe();
         let snap: Vec<V> = sub.values().iter().copied().collect();
-        let st = if batched { St::Batched(Box::pin(sub.into_batched_stream())) } else { St::Plain(Box::pin(sub.into_stream())) };
-        let (flag, waker) = flag_waker();
         let id = self.subs.len();
+        let st = if id % 3 == 1 || id % 3 == 2 { St::Lazy(Some(sub), (id % 3 - 1) as u8) } else if batched { St::Batched(Box::pin(sub.into_batched_stream())) } else { St::Plain(Box::pin(sub.into_stream())) };
+        let (flag, waker) = flag_waker();
         if snap != self.contents() { sink.oracle_fail("C05", "subscription snapshot differs from the vector's contents"); }
         self.subs.push(Some(SubH { st, batched, flag, waker, replica: snap.clone(), queue: VecDeque::new(), parked: false, ended: false }));
         sink.stat(if batched { "sub.batched" } else { "sub.plain" });
@@ -363,6 +395,16 @@ impl World {
     }
 
     fn poll_raw(s: &mut SubH) -> Polled {
+        if let St::Lazy(sub, mode) = &mut s.st {
+            let sub = sub.take().unwrap();
+            let snap_ok = |v: imbl::Vector<V>, rep: &Vec<V>| v.iter().copied().collect::<Vec<V>>() == *rep;
+            s.st = match (s.batched, *mode) {
+                (true, 0) => St::Batched(Box::pin(sub.into_batched_stream())),
+                (false, 0) => St::Plain(Box::pin(sub.into_stream())),
+                (true, _) => { let (v, st) = sub.into_values_and_batched_stream(); if !snap_ok(v, &s.replica) { return Polled::Panic; } St::Batched(Box::pin(st)) }
+                (false, _) => { let (v, st) = sub.into_values_and_stream(); if !snap_ok(v, &s.replica) { return Polled::Panic; } St::Plain(Box::pin(st)) }
+            };
+        }
         let mut cx = Context::from_waker(&s.waker);
         let r = catch(|| match &mut s.st {
             St::Plain(p) => match p.as_mut().poll_next(&mut cx) {
@@ -375,6 +417,7 @@ impl World {
                 Poll::Ready(None) => Polled::End,
                 Poll::Pending => Polled::Pending,
             },
+            St::Lazy(..) => unreachable!(),
         });
         r.unwrap_or(Polled::Panic)
     }
@@ -416,7 +459,7 @@ impl World {
                 s.ended = true;
                 "End".into()
             }
-            Polled::Panic => { stop = true; sink.oracle_fail("C05", &format!("subscriber {i}: poll panicked")); "panic".into() }
+            Polled::Panic => { stop = true; sink.oracle_fail("C05", &format!("subscriber {i}: poll panicked, or the values handed out with the stream differ from the snapshot taken at subscribe()")); "panic".into() }
             Polled::One(d) => {
                 s.parked = false;
                 Self::deliver(sink, i, s, std::slice::from_ref(d), cap, &current, false, ptag);
@@ -607,6 +650,20 @@ impl World {
         {
             let t = self.txn.as_mut().unwrap();
             let mut k = 0;
+            if !decs.contains(&Dec::Stop) && decs.len() % 2 == 0 {
+                // no early exit wanted: `ObservableVectorTransaction::for_each`
+                t.for_each(|mut e| {
+                    let d = decs.get(k).copied().unwrap_or(Dec::Keep);
+                    k += 1;
+                    seen.push((ObservableVectorTransactionEntry::index(&e), *e));
+                    match d {
+                        Dec::Keep | Dec::Stop => {}
+                        Dec::Set(v) => { ObservableVectorTransactionEntry::set(&mut e, v); n_ops += 1; }
+                        Dec::Remove => { ObservableVectorTransactionEntry::remove(e); n_ops += 1; }
+                        Dec::SetRemove(v) => { ObservableVectorTransactionEntry::set(&mut e, v); ObservableVectorTransactionEntry::remove(e); n_ops += 2; }
+                    }
+                });
+            } else {
             let mut entries = t.entries();
             while let Some(mut e) = entries.next() {
                 let d = decs.get(k).copied().unwrap_or(Dec::Keep);
@@ -619,6 +676,7 @@ impl World {
                     Dec::SetRemove(v) => { ObservableVectorTransactionEntry::set(&mut e, v); ObservableVectorTransactionEntry::remove(e); n_ops += 2; }
                     Dec::Stop => break,
                 }
+            }
             }
         }
         let after = self.tvals();
@@ -930,7 +988,7 @@ pub fn run(args: &Args, sink: &mut Sink) {
         sink.case(&format!("R{k}"));
         let mut r = rng.fork();
         let cap = [1usize, 2, 3, 5, 7, 16, 64][r.below(7)];
-        let mut w = World::new(sink, cap);
+        let mut w = if cap == 16 && r.chance(1, 2) { let n = r.below(5); World::new_from(sink, (0..n).map(|j| 50 + j as V).collect()) } else { World::new(sink, cap) };
         let steps = 10 + r.below(if thorough { 70 } else { 40 });
         let poll_bias = 1 + r.below(6) as u64; // some histories poll rarely (lag), some often
         for _ in 0..steps {
